@@ -7,7 +7,7 @@ from ..interp import Interp
 from ..lib import is_call, loc
 from ..repo import walk_scope
 from ..terms import Atom, Obj, vkey
-from .common import ddict, ds, scan, st, worker
+from .common import callers_of, ddict, ds, scan, st, worker
 from .sched import r_no_downgrade
 from .C02 import r1_pairing_after_yield, r2_gpu_cpu_lists, r4_consider_computable, r7_reidle, r10_one_round_exactly_once
 
@@ -201,8 +201,23 @@ def r4_mirror_maps(ctx):
         for attr in (a, b):
             for fi, node, kind, det in scan().attr_sites(attr, ("cascade.scheduler", "cascade.controller")):
                 written.setdefault(fi.qual, {}).setdefault(attr, (fi, node))
+    # a helper that is not part of the confirmed baseline (extracted by a later change) is judged together with its callers:
+    # its writes count as theirs (transitively), and it is not judged on its own while it has callers
+    from ..repo import KNOWN_FUNCS
+    folded = set()
+    for _ in range(4):
+        for q in [q for q in written if q not in KNOWN_FUNCS and q not in folded]:
+            cs = [cfi for cfi, _n in callers_of(ctx.repo, q) if cfi.qual != q]
+            if not cs:
+                continue
+            folded.add(q)
+            for cfi in cs:
+                for attr, site in written[q].items():
+                    written.setdefault(cfi.qual, {}).setdefault(attr, site)
     n = 0
     for q, attrs in written.items():
+        if q in folded:
+            continue
         for a, b in MIRRORS:
             if (a in attrs) != (b in attrs):
                 have, miss = (a, b) if a in attrs else (b, a)
